@@ -117,8 +117,9 @@ def run(tier, seed, mutant=None, only_validate=False):
             amod.spec_violation(res, r, rec, INV_PROP, "C08", "partition")
             for (n, to, mod) in combos:
                 for sync in (False, True):
+                    # (three keys x 5 elements are 44 million states: 4 elements there)
                     r, rec = amod.mc(res, work, "AsyncPartition", "n%d_t%d_m%d_sync%d" % (n, to, mod, sync),
-                                     dict(NE=ne if mod < 3 else 4, N=n, Timeout=to, Timed=to > 0, Mod=mod, SyncCons=sync,      # (three keys x 5 elements: 44 million states) MaxTime=2 * max(to, 1) + 2, Faults=not sync), INVS, workers=16)
+                                     dict(NE=ne if mod < 3 else 4, N=n, Timeout=to, Timed=to > 0, Mod=mod, SyncCons=sync, MaxTime=2 * max(to, 1) + 2, Faults=not sync), INVS, workers=16)
                     amod.spec_violation(res, r, rec, INV_PROP, "C08", "partition")
         cfgs = []
         for (n, to, mod) in combos:
